@@ -151,8 +151,8 @@ def configs(tier, seed):
                 d = depth
                 if quick and vi == 1:
                     d = max(2, depth - 1)
-                if (not quick) and shape == "T1" and al == "exact" and vi == 0:
-                    d = 5
+                if (not quick) and (al == "decimal" or vi >= 2):
+                    d = 3  # (depth 4 on the exact tables for two cost models only: the tier has to fit into an hour)
                 out.append(("%s/%s/%s" % (shape, al, _vname(v)), spec, ops, d))
     # a price path touching exactly zero (positions stay open at zero value) and recovering
     for vi, v in enumerate(vs[:2] if quick else variants):
